@@ -837,6 +837,21 @@ def handwritten_mixed():
     out.append(bitfield_case("mh_ov_arr", "mixed", 16, [uint_field("a", [(0, 1), (3, 3)], array=arr(2, 1))], default=default_spec(0), name="Reg"))
     # same bit named twice in a scalar list (C12 aliasing / C14 no builder)
     out.append(bitfield_case("mh_self", "mixed", 16, [uint_field("a", [(0, 3), (2, 5)], access="rw")], default=default_spec(0), name="Reg", tags=["self-overlap"]))
+    # more lists that name a bit twice (legal; only C09 acceptance, C14 builder absence and C16 totality apply to them):
+    # doubly covered top storage bit, and a range as wide as the storage integer inside a list
+    out.append(bitfield_case("mh_self2", "mixed", 8, [uint_field("a", [(4, 7), (6, 7)])], name="Reg", tags=["self-overlap"]))
+    out.append(bitfield_case("mh_self3", "mixed", 8, [uint_field("a", [(0, 7), (0, 7)], access="r")], name="Reg", tags=["self-overlap"]))
+    out.append(bitfield_case("mh_self4", "mixed", 8, [uint_field("a", [(0, 3), (0, 7)])], name="Reg", tags=["self-overlap"]))
+    out.append(bitfield_case("mh_self5", "mixed", 32, [uint_field("a", [(0, 31), (31, 31)])], default=default_spec(0), name="Reg", tags=["self-overlap"]))
+    out.append(bitfield_case("mh_self6", "mixed", 64, [uint_field("a", [(0, 0), (0, 63)], access="r"), bool_field("b", 63)], name="Reg", tags=["self-overlap"]))
+    out.append(bitfield_case("mh_self7", "mixed", 128, [uint_field("a", [(127, 127), (120, 127)])], name="Reg", tags=["self-overlap"]))
+    out.append(bitfield_case("mh_self8", "mixed", 24, [uint_field("a", [(16, 23), (23, 23), (0, 3)])], name="Reg", tags=["self-overlap"]))
+    # one-bit fields spelled as a range (lo == hi)
+    f1 = uint_field("x", [(3, 3)])
+    f1["form"] = "bits"
+    f2 = uint_field("y", [(8, 8)], array=arr(8, None, 1))
+    f2["form"] = "bits"
+    out.append(bitfield_case("mh_bits1", "mixed", 16, [f1, f2], name="Reg"))
     return out
 
 
@@ -933,6 +948,11 @@ def fam_dbgf(tier, seed):
                   uint_field("scattered", [(40, 43), (36, 37)], access="r"), sint_field("wide", [(base - 32, base - 1)])]
         cases.append(bitfield_case("dk_%04d" % n, "dbgf", base, fields, helpers=[e_x, e_n, inner], debug=True, name="Everything", default=default_spec(0)))
         n += 1
+    # raw identifiers: the field's name is the identifier without the r# escape
+    for base in (16, 24):
+        cases.append(bitfield_case("dw_%04d" % n, "dbgf", base, [uint_field("r#type", [(0, 3)]), bool_field("r#match", 4), sint_field("r#loop", [(8, 15)]), uint_field("plain", [(5, 7)], access="r")],
+                                   debug=True, name="Keywords", default=default_spec(0x1234)))
+        n += 1
     for _ in range(30 if tier == "quick" else 300):
         base = rng.choice([8, 16, 32, 64, 128] * 2 + all_arb_widths())
         cases.append(random_register("dr_%04d" % n, base, rng, want_debug=True, family="dbgf"))
@@ -963,7 +983,41 @@ def fam_probe11(tier, seed):
     return cases
 
 
+def fam_mirif(tier, seed):
+    """small boundary sample of the other families for the Miri evaluator: fields trimmed to <= 4 per struct"""
+    import copy
+    out = []
+    n = 0
+    picks = dict(single=24, array=16, nc=12, custom=16, mixed=16, base=16, bld=12, dbgf=8, enumf=16)
+    for fam, want in picks.items():
+        cs = [c for c in family(fam, "quick", seed) if not c.get("seeded")]
+        if fam == "mixed":
+            cs = [c for c in cs if "self-overlap" not in c.get("tags", [])]
+        step = max(1, len(cs) // want)
+        for c in cs[::step][:want]:
+            c = copy.deepcopy(c)
+            c["id"] = "mi_%03d_%s" % (n, c["id"])
+            c["family"] = "mirif"
+            n += 1
+            if c["kind"] == "bitfield":
+                fs = c["fields"]
+                if len(fs) > 4:
+                    # keep first, last and two from the middle (boundary placements live at the ends of the packed structs)
+                    keep = sorted({0, len(fs) // 3, 2 * len(fs) // 3, len(fs) - 1})
+                    c["fields"] = [fs[i] for i in keep]
+                for f in c["fields"]:
+                    if f["array"] and f["array"]["count"] > 6:
+                        pass
+                used = {f["tyref"] for f in c["fields"] if f["tyref"]}
+                c["helpers"] = [h for h in c.get("helpers", []) if h["name"] in used]
+            elif len(c["enum"]["variants"]) > 40:
+                continue
+            out.append(c)
+    return out
+
+
 FAMILIES = {
+    "mirif": fam_mirif,
     "probe11": fam_probe11,
     "bld": fam_bld,
     "dbgf": fam_dbgf,
